@@ -76,9 +76,12 @@ def configs(tier, seed):
                 continue
             dim = 2 if op == "matmul" or (op in ("add", "sub") and (k + j + seed) % 2 == 0) else 0
             cfgs.append(dict(name=f"pair{k} {op} pol dim={dim}", kind="binary", op=op, rat="", dim=dim, **base))
-            if op not in ("div", "matmul") and (k < len(PAIRS) or (k + j + seed) % 3 == 0) and pa + pb <= 3:
+            if op != "matmul" and (k < len(PAIRS) or (k + j + seed) % 3 == 0) and pa + pb <= 3:
                 rat = ("A", "B", "AB")[(k + j) % 3]
                 cfgs.append(dict(name=f"pair{k} {op} rat={rat} dim=0", kind="binary", op=op, rat=rat, dim=0, **base))
+                if sum(ma) - pa == sum(mb) - pb and (pa, va, ma) != (pb, vb, mb):
+                    # both operands carry the very same weight tuple, on different knot vectors / degrees
+                    cfgs.append(dict(name=f"pair{k} {op} rat=AB, equal weight tuples dim=0", kind="binary", op=op, rat="AB=", dim=0, **base))
         if k < len(PAIRS) or k % 3 == seed % 3:
             for op in OPS1:
                 dim = 2 if op in ("M@A", "A@M") or (op in ("neg", "s*A", "A*s", "A/s") and k % 2) else 0
@@ -141,7 +144,7 @@ def body(env, cfg):
 
     if cfg["kind"] == "binary":
         Q = make_points(env, "Q", kvb.n, dim)
-        WB = conc_weights(kvb.n, 2) if "B" in cfg["rat"] else None
+        WB = conc_weights(kvb.n, 1 if "=" in cfg["rat"] else 2) if "B" in cfg["rat"] else None
         if op == "div":
             for q in Q:
                 env.assume(q >= F(1, 10))
